@@ -2196,3 +2196,37 @@ mod tests {
     ecc_tests!(test_mul_by_constant);
     ecc_tests!(test_coordinates);
 }
+
+/// verif-hooks H11: public entries to two private helpers that are otherwise reachable only through
+/// multi-scalar multiplication, so that an out-of-tree harness can extract the constraints each of them
+/// emits in isolation. Both forward unchanged and add no constraint of their own.
+#[cfg(feature = "verif-hooks")]
+impl<F, C, B, S, N> ForeignEccChip<F, C, B, S, N>
+where
+    F: CircuitField,
+    C: WeierstrassCurve,
+    B: FieldEmulationParams<F, C::Base>,
+    S: ScalarFieldInstructions<F>,
+    S::Scalar: InnerValue<Element = C::ScalarField>,
+    N: NativeInstructions<F>,
+{
+    /// Forwards to the private `incomplete_add` (condition bit fixed to 1).
+    pub fn verif_incomplete_add(
+        &self,
+        layouter: &mut impl Layouter<F>,
+        p: &AssignedForeignPoint<F, C, B>,
+        q: &AssignedForeignPoint<F, C, B>,
+    ) -> Result<AssignedForeignPoint<F, C, B>, Error> {
+        self.incomplete_add(layouter, p, q)
+    }
+
+    /// Forwards to the private `incomplete_assert_different_x`.
+    pub fn verif_incomplete_assert_different_x(
+        &self,
+        layouter: &mut impl Layouter<F>,
+        p: &AssignedForeignPoint<F, C, B>,
+        q: &AssignedForeignPoint<F, C, B>,
+    ) -> Result<(), Error> {
+        self.incomplete_assert_different_x(layouter, p, q)
+    }
+}
